@@ -73,19 +73,20 @@ pub fn check_requirements(definitions: &dmntk_model::model::Definitions) -> Resu
       let mut required: Vec<String> = vec![];
       required.extend(decision.information_requirements().iter().filter_map(|r| r.required_decision().as_ref().map(|href| href.into())));
       required.extend(decision.knowledge_requirements().iter().filter_map(|r| r.required_knowledge().as_ref().map(|href| href.into())));
-      graph.insert(id.clone(), (decision.name().to_string(), required));
+      // (two elements with one id: whichever of them the evaluators go by, the requirements of both are followed)
+      graph.entry(id.clone()).or_insert_with(|| (decision.name().to_string(), vec![])).1.extend(required);
     }
   }
   for business_knowledge_model in definitions.business_knowledge_models() {
     if let Some(id) = business_knowledge_model.id() {
-      let required = business_knowledge_model.knowledge_requirements().iter().filter_map(|r| r.required_knowledge().as_ref().map(|href| href.into())).collect();
-      graph.insert(id.clone(), (business_knowledge_model.name().to_string(), required));
+      let required: Vec<String> = business_knowledge_model.knowledge_requirements().iter().filter_map(|r| r.required_knowledge().as_ref().map(|href| href.into())).collect();
+      graph.entry(id.clone()).or_insert_with(|| (business_knowledge_model.name().to_string(), vec![])).1.extend(required);
     }
   }
   for decision_service in definitions.decision_services() {
     if let Some(id) = decision_service.id() {
-      let required = decision_service.output_decisions().iter().chain(decision_service.encapsulated_decisions().iter()).map(|href| href.into()).collect();
-      graph.insert(id.clone(), (decision_service.name().to_string(), required));
+      let required: Vec<String> = decision_service.output_decisions().iter().chain(decision_service.encapsulated_decisions().iter()).map(|href| href.into()).collect();
+      graph.entry(id.clone()).or_insert_with(|| (decision_service.name().to_string(), vec![])).1.extend(required);
     }
   }
   for (start, (name, required)) in &graph {
